@@ -20,7 +20,8 @@ pristine snapshot; inside a scope Quantity(1, <custom>) works for every open sco
 Four parts:
   graph   state-pruned BFS of the whole state graph (state = canonical tables + stack of open scopes), nesting <= 3:
           every operation of the alphabet (all fault kinds, every unwinding distance) is applied in every state
-          (quick: the innermost of three scopes is opened as with-block only; thorough: both styles)
+          (quick: the innermost of three scopes is opened as with-block only and failing steps at depth 3 unwind
+          0 or 3 scopes; thorough: both styles, every unwinding distance)
   hist    un-pruned histories (non-initial states, re-used definition dicts), deviation-ordered by the number of
           failing steps (0, 1, 2): full alphabet to length LF, a core alphabet to length LC
   cycles  three consecutive open/close or failing cycles (repeated open/close of the same set)
@@ -246,7 +247,8 @@ def _owner(hist, tier):
     if nf <= MAXFAULT and len(hist) <= LC[tier] and _valid(hist, A_CORE):
         return "core"
     if all(op[0] == "open" for op in hist[:-1]) and _nfaults(hist[:-1]) == 0 and _valid(hist, A_GRAPH) \
-            and not (tier == "quick" and len(hist) > NEST and hist[NEST - 1][2] == "explicit"):
+            and not (tier == "quick" and len(hist) > NEST and hist[NEST - 1][2] == "explicit") \
+            and not (tier == "quick" and _quick_skip(tuple(op[1] for op in hist[:-1]), hist[-1])):
         return "graph"
     return "cycles"
 
@@ -681,13 +683,13 @@ class Run:
 
 
 def _report(sh, rec):
-    """keep at most two records per failure class and shard in the failure list (the runner caps the merged list);
-    the others still count as violations"""
+    """keep one record per failure class and shard in the failure list (the runner caps the merged list); the others
+    still count as violations"""
     from .. import findings
     cls = sh.extra.setdefault("_cls", {})
     key = (rec["sub"], rec["behaviour"], tuple(rec["tags"]))
     cls[key] = cls.get(key, 0) + 1
-    if cls[key] <= 2 or findings.attribute(PROPERTY, rec) is not None:
+    if cls[key] <= 1 or findings.attribute(PROPERTY, rec) is not None:
         sh.fail(rec)
     else:
         sh.failures_dropped += 1
@@ -922,34 +924,33 @@ def _histories(first, length, alpha):
 
 
 def plan(tier, seed):
-    shards = []
-    # dip (first: few, comparatively long shards)
-    for ctx in DIP_CTX:
-        for ln in LNAMES:
-            shards.append(("dip", (ctx, ln), tier))
+    # enumeration is exhaustive in both tiers; VERIF_SEED selects nothing (no windows)
     opens = [("open", s, st) for s in GOOD for st in ("with", "explicit")]
+    first, rest = [], []
+    # dip route: few, comparatively long shards
+    dips = [("dip", (ctx, ln), tier) for ctx in DIP_CTX for ln in LNAMES]
     # graph: partition of the state graph by the bottom scopes of the stack
-    shards.append(("graph", (), tier))
+    first.append(("graph", (), tier))
     for a in opens:
-        shards.append(("graph", (a,), tier))
+        first.append(("graph", (a,), tier))
         for b in opens:
             if not _predict_fail((a[1],), b):
-                shards.append(("graph", (a, b), tier))
+                rest.append(("graph", (a, b), tier))
     # hist: un-pruned histories by first op (full alphabet) / first two ops
     for op in _enabled((), A_FULL):
         st = _step((), op)
         for op2 in _enabled(st, A_FULL):
-            shards.append(("hist", (op, op2), tier))
-        shards.append(("hist1", (op,), tier))
+            rest.append(("hist", (op, op2), tier))
+        first.insert(0, ("hist1", (op,), tier))
     for op in _enabled((), A_CORE):
         st = _step((), op)
         for op2 in _enabled(st, A_CORE):
-            shards.append(("core", (op, op2), tier))
+            rest.append(("core", (op, op2), tier))
     # cycles
-    cyc = _cycles()
-    for i in range(len(cyc)):
-        shards.append(("cycles", i, tier))
-    return shards
+    for i in range(len(_cycles())):
+        rest.append(("cycles", i, tier))
+    # shortest histories first: the runner keeps a bounded number of failure records in arrival order
+    return first + dips + rest
 
 
 def _cycles():
@@ -1006,6 +1007,16 @@ def run_shard(desc):
     return sh
 
 
+def _quick_skip(st, op):
+    """quick tier only: the innermost of three scopes is opened as with-block only (the explicit style there is
+    covered by hist), and in states of depth 3 failing steps unwind 0 or all 3 scopes (1 and 2: thorough)"""
+    if op[0] == "open":
+        return len(st) == NEST - 1 and op[2] == "explicit"
+    if op[0] in ("fail", "dip") and len(st) == NEST:
+        return op[2] not in (0, NEST)
+    return False
+
+
 def _graph(prefix, tier, sh, seen):
     """all states whose stack starts with `prefix` (exactly `prefix` if shorter than 2), every enabled op applied"""
     stack0 = tuple(op[1] for op in prefix)
@@ -1017,8 +1028,8 @@ def _graph(prefix, tier, sh, seen):
         for h in frontier:
             st = tuple(op[1] for op in h)
             for op in _enabled(st, A_GRAPH):
-                if tier == "quick" and op[0] == "open" and len(st) == NEST - 1 and op[2] == "explicit":
-                    continue      # quick: innermost level as with-block only (explicit style is covered by hist)
+                if tier == "quick" and _quick_skip(st, op):
+                    continue
                 r = _exec(h + (op,), sh, tier, "graph", seen)
                 sh.count("graph-op:" + op[0])
                 if op[0] == "open" and not _predict_fail(st, op) and len(prefix) == 2 and len(st) + 1 <= NEST:
@@ -1057,13 +1068,15 @@ MANIFEST = dict(
          "registration (duplicate at position 1/2/3, duplicate of an enclosing scope's symbol, clash with a prefixed "
          "table symbol found only by the uniqueness check, malformed definition, inadmissible prefix, conversion class) "
          "caught after unwinding 0..3 scopes, normal end, body exception unwinding 1..3 scopes, DIP parses that succeed "
-         "or fail inside the body - is applied in every reachable state with nesting <= 3; (hist) all un-pruned "
+         "or fail inside the body - is applied in every reachable state with nesting <= 3 (1737 canonical states; quick "
+         "restricts the third level to with-blocks and unwinding distances 0/3); (hist) all un-pruned "
          "histories with <= 2 failing steps up to length 3 (quick) / 4 (thorough) over the full alphabet and 5 / 6 over "
          "a core alphabet, plus three repeated open/close cycles; (dip) every DIP line program up to 4 / 5 distinct "
          "lines over 17 lines ($unit definitions that succeed/fail, float/int nodes, numerical and logical "
-         "expressions, !condition, @case, modification) at depth 0, inside unrelated and clashing Python scopes and "
-         "continued in a second parse. On every transition: tables equal the scope-entry snapshot at every exit / "
-         "failed construction / parse, pristine at depth 0, custom units usable inside and unknown outside.",
+         "expressions that succeed/raise, !condition, @case, modification) at depth 0, inside unrelated and clashing "
+         "Python scopes and continued in a second parse. On every transition: tables equal the scope-entry snapshot at "
+         "every exit / failed construction / parse, pristine at depth 0, custom units usable inside and unknown "
+         "outside. 119 090 (quick) / 1.69 million (thorough) executed histories.",
     note="Trusted: mc/isolation.py canonical table form (plus identity of UNIT_TYPES classes), the static stack model "
          "that says which registrations are expected to succeed. Non-LIFO closing, double close and environments left "
          "open are not demanded. Deeper nesting / longer histories rely on the small-scope hypothesis.",
